@@ -33,6 +33,28 @@ theorem lowmem_waiter_resumes (cap : Nat) : LowmemWaiterResumes (lmFixed cap) :=
   · have hav' : LM.avail { cap := cap, hbNeg := false } s = true := decide_eq_true hav
     simp [lmFixed, hsw, hav', LM.broadcast]
 
+/-- …and once notified, with the mutex free and the counter still below the capacity, the reader's
+    next loop iteration (re-lock, Unlock, slowWaiters.Dec, Inc) returns with an event. -/
+theorem lowmem_woken_gets (c : LM.Cfg) (s : LM.St) (r : Nat)
+    (hp : s.pcs[r]? = some .woken) (hmu : s.mu = none) (hav : s.inUse < c.cap) :
+    ∃ s', TS.run (LM.step? c) s [.relock r, .unlock r, .swDec r, .inc r] = some s' ∧
+      s'.pcs[r]? = some .holding ∧ s'.inUse = s.inUse + 1 := by
+  have hlt : r < s.pcs.length := by
+    rcases Nat.lt_or_ge r s.pcs.length with h | h
+    · exact h
+    · simp [List.getElem?_eq_none h] at hp
+  let s1 := LM.setPc { s with mu := some r } r .unlocking
+  let s2 := LM.setPc { s1 with mu := none } r .postUnlock
+  let s3 := LM.setPc { s2 with sw := s2.sw - 1 } r .want
+  let s4 := LM.setPc { s3 with inUse := s3.inUse + 1, gets := s3.gets + 1 } r .holding
+  have e1 : LM.step? c s (.relock r) = some s1 := by simp [LM.step?, hp, hmu, s1]
+  have e2 : LM.step? c s1 (.unlock r) = some s2 := by simp [LM.step?, s1, s2, LM.setPc, hlt]
+  have e3 : LM.step? c s2 (.swDec r) = some s3 := by simp [LM.step?, s1, s2, s3, LM.setPc, hlt]
+  have e4 : LM.step? c s3 (.inc r) = some s4 := by
+    have : s.inUse + 1 ≤ c.cap := hav
+    simp [LM.step?, s1, s2, s3, s4, LM.setPc, hlt, this]
+  refine ⟨s4, by simp [TS.run, e1, e2, e3, e4], ?_, ?_⟩ <;> simp [s4, s3, s2, s1, LM.setPc, hlt]
+
 /-- non-vacuity: the lost-wake-up state (capacity 1: reader 1 checked while the pool was full,
     reader 0 returned its event and broadcast, then reader 1 entered Wait) is reachable and
     satisfies the hypotheses -/
